@@ -37,6 +37,8 @@ impl Out {
 pub struct Cmd<'a> {
   pub bin: &'a str,
   pub args: Vec<String>,
+  /// raw argument vector (may be invalid UTF-8); used instead of `args` when set
+  pub os_args: Option<Vec<std::ffi::OsString>>,
   pub cwd: Option<PathBuf>,
   pub stdin: Option<Vec<u8>>,
   pub env: Vec<(String, String)>,
@@ -49,6 +51,7 @@ impl<'a> Cmd<'a> {
     Cmd {
       bin,
       args: args.iter().map(|s| s.to_string()).collect(),
+      os_args: None,
       cwd: None,
       stdin: None,
       env: vec![],
@@ -59,6 +62,12 @@ impl<'a> Cmd<'a> {
   pub fn args_owned(bin: &'a str, args: Vec<String>) -> Self {
     let mut c = Cmd::new(bin, &[]);
     c.args = args;
+    c
+  }
+  pub fn args_bytes(bin: &'a str, args: Vec<Vec<u8>>) -> Self {
+    use std::os::unix::ffi::OsStringExt;
+    let mut c = Cmd::new(bin, &[]);
+    c.os_args = Some(args.into_iter().map(std::ffi::OsString::from_vec).collect());
     c
   }
   pub fn cwd(mut self, p: &Path) -> Self {
@@ -79,7 +88,10 @@ impl<'a> Cmd<'a> {
   }
   pub fn run(self) -> Out {
     let mut c = Command::new(self.bin);
-    c.args(&self.args);
+    match &self.os_args {
+      Some(a) => c.args(a),
+      None => c.args(&self.args),
+    };
     if let Some(cwd) = &self.cwd {
       c.current_dir(cwd);
     }
